@@ -305,7 +305,7 @@ func mergeSnapshots(next, existing metadata.ClusterMetadata) metadata.ClusterMet
 		if _, ok := seen[name]; ok {
 			continue
 		}
-		next.Topics = append(next.Topics, topic)
+		next.Topics = append(next.Topics, reassignToBrokers(topic, next.Brokers))
 	}
 	return next
 }
@@ -330,4 +330,40 @@ func sleepWithContext(ctx context.Context, d time.Duration) error {
 	case <-timer.C:
 		return nil
 	}
+}
+
+// reassignToBrokers returns a carried-over topic whose partitions only name
+// brokers of the snapshot being published. A partition led by a broker that is
+// no longer part of the cluster (scale-down since the topic was written) is
+// placed the way BuildClusterMetadata places partitions; the others are kept.
+func reassignToBrokers(topic protocol.MetadataTopic, brokers []protocol.MetadataBroker) protocol.MetadataTopic {
+	if len(brokers) == 0 {
+		return topic
+	}
+	ids := make([]int32, 0, len(brokers))
+	known := make(map[int32]struct{}, len(brokers))
+	for _, broker := range brokers {
+		ids = append(ids, broker.NodeID)
+		known[broker.NodeID] = struct{}{}
+	}
+	var partitions []protocol.MetadataPartition
+	for i, partition := range topic.Partitions {
+		if _, ok := known[partition.Leader]; ok {
+			continue
+		}
+		if partitions == nil {
+			partitions = append([]protocol.MetadataPartition(nil), topic.Partitions...)
+		}
+		index := partition.Partition
+		if index < 0 {
+			index = int32(i)
+		}
+		partitions[i].Leader = ids[index%int32(len(ids))]
+		partitions[i].Replicas = append([]int32(nil), ids...)
+		partitions[i].ISR = append([]int32(nil), ids...)
+	}
+	if partitions != nil {
+		topic.Partitions = partitions
+	}
+	return topic
 }
